@@ -60,7 +60,7 @@ pub fn batches(prop: &str, thorough: bool) -> Vec<Batch> {
     let b64k: [u64; 7] = [0, 0, 0, 0, 0, 1, 0];
     let b16m: [u64; 7] = [0, 0, 0, 0, 0, 0, 1];
     let long: [u64; 7] = [0, 0, 10, 40, 50, 0, 0];
-    let oversize = matches!(prop, "C01" | "C02");
+    let oversize = matches!(prop, "C01" | "C02" | "C05");
     let mk = |name, subjects: &[K], faults, classes: [u64; 7], runs| Batch { name, cfg: GenCfg { subjects: subjects.to_vec(), faults, classes, oversize }, runs };
     let count_tables = [Xsdt, Mcfg, Madt, Rhct, Hest, Rimt];
     match prop {
@@ -89,8 +89,8 @@ pub fn batches(prop: &str, thorough: bool) -> Vec<Batch> {
             mk("64k-boundaries", &count_tables, false, b64k, q(10, 120)),
         ],
         "C05" => vec![
-            mk("fault-free", &[Pptt, Rhct, Rimt, Viot], false, short, q(150_000, 6_000_000)),
-            mk("faults", &[Pptt, Rhct, Rimt, Viot], true, shortf, q(50_000, 2_000_000)),
+            mk("fault-free", &[Pptt, Rhct, Rimt, Viot], false, short, q(110_000, 5_000_000)),
+            mk("faults", &[Pptt, Rhct, Rimt, Viot], true, shortf, q(40_000, 2_000_000)),
             mk("long-and-256-boundaries", &[Pptt, Rhct, Rimt, Viot], false, long, q(1_500, 60_000)),
             mk("64k-boundaries", &[Rhct, Rimt], false, b64k, q(4, 40)),
         ],
@@ -110,8 +110,8 @@ pub fn batches(prop: &str, thorough: bool) -> Vec<Batch> {
             let mut all = gen::CHECKSUMMED.to_vec();
             all.extend_from_slice(&[Facs, SysLocSubj, CksumSubj, AmlSubj, AmlSubj, AmlSubj, AmlSubj]);
             vec![
-                mk("fault-free", &all, false, short, q(60_000, 3_000_000)),
-                mk("faults", &all, true, shortf, q(40_000, 2_000_000)),
+                mk("fault-free", &all, false, short, q(50_000, 2_500_000)),
+                mk("faults", &all, true, shortf, q(30_000, 1_500_000)),
                 mk("long", &gen::TABLES, false, long, q(300, 12_000)),
             ]
         }
@@ -618,6 +618,14 @@ pub fn check(prop: &str, tier: &str, profile: &str, evidence_path: Option<String
             zero.push(J::s(p));
         }
     }
+    // which subjects had a count/length carry observed (names, not just a count)
+    let mut carries = J::obj();
+    for key in ["carry.subjects_length_crossing_256", "carry.subjects_count_255_to_256", "carry.subjects_length_crossing_65536", "carry.subjects_count_65535_to_65536"] {
+        if let Some(set) = total.sets.get(key) {
+            let names: Vec<J> = set.iter().filter_map(|v| K::ALL.get(*v as usize)).map(|k| J::s(k.name())).collect();
+            carries.put(key, J::A(names));
+        }
+    }
     let mut cov = J::obj()
         .set("evaluations", J::U(runs))
         .set("distinct_nontrivial", J::U(nontriv.len() as u64))
@@ -638,6 +646,7 @@ pub fn check(prop: &str, tier: &str, profile: &str, evidence_path: Option<String
         .set("probes", probes)
         .set("coverage_sets_sizes", sets)
         .set("probes_at_zero", J::A(zero))
+        .set("carries_observed_per_subject", carries)
         .set("batches", J::A(batch_info))
         .set("violating_runs_total", J::U(violating_runs))
         .set("known_findings_matched", J::A(known_hits.iter().map(|(k, v)| J::obj().set("finding", J::s(k)).set("runs", J::U(*v))).collect()))
